@@ -75,22 +75,29 @@ Theorem npu_top_op_spec_lemma hw evs b1 b2 k ins outs rs ws :
   rs = ins /\ ws = clobbers k (arena_ivs b1 b2 (stream_writes hw evs)) ++ outs /\
   forall rg lo hi t, In (rg, lo, hi, t) outs ->
     rg = ARENA /\
-    forall a, lo <= a < hi ->
-      exists s iv, In s (stream_writes hw evs) /\ In iv (arena_iv b1 b2 s) /\ fst iv <= a < snd iv.
+    ((forall a, lo <= a < hi ->
+       exists s iv, In s (stream_writes hw evs) /\ In iv (arena_iv b1 b2 s) /\ fst iv <= a < snd iv) \/
+     (exists t', In (rg, lo, hi, t') ins)).
 Proof.
   unfold npu_top_op. set (ivs := arena_ivs b1 b2 (stream_writes hw evs)).
-  destruct (forallb (written_by k ivs) outs) eqn:Hall; [|discriminate].
+  destruct (forallb (fun o => written_by k ivs o || aliases_input ins o) outs) eqn:Hall; [|discriminate].
   intros H. injection H as <- <-. split; [reflexivity|]. split; [reflexivity|].
   intros rg lo hi t Hin. rewrite forallb_forall in Hall. specialize (Hall _ Hin).
-  unfold written_by in Hall. apply andb_true_iff in Hall as [Hrg Hcov].
-  apply Z.eqb_eq in Hrg. split; [exact Hrg|].
-  intros a Ha. destruct (covered_sound _ _ _ _ _ Hcov a Ha) as [t' [Hl _]].
-  rewrite (fold_hwrite_lookup (clobbers k ivs) [] ARENA a) in Hl.
-  destruct (fold_sh_write_inv (clobbers k ivs) (lookup []) ARENA a) as [He|[w [Hw [Hc _]]]].
-  - rewrite He in Hl. cbn in Hl. discriminate.
-  - destruct (clobbers_in _ _ _ Hw) as [iv [Hiv ->]]. cbn in Hc. destruct Hc as [_ Hc].
-    destruct (arena_ivs_in _ _ _ _ Hiv) as [s [Hs Hivs]].
-    exists s, iv. split; [exact Hs|]. split; [exact Hivs | exact Hc].
+  apply orb_true_iff in Hall as [Hall|Hall].
+  - unfold written_by in Hall. apply andb_true_iff in Hall as [Hrg Hcov].
+    apply Z.eqb_eq in Hrg. split; [exact Hrg|]. left.
+    intros a Ha. destruct (covered_sound _ _ _ _ _ Hcov a Ha) as [t' [Hl _]].
+    rewrite (fold_hwrite_lookup (clobbers k ivs) [] ARENA a) in Hl.
+    destruct (fold_sh_write_inv (clobbers k ivs) (lookup []) ARENA a) as [He|[w [Hw [Hc _]]]].
+    + rewrite He in Hl. cbn in Hl. discriminate.
+    + destruct (clobbers_in _ _ _ Hw) as [iv [Hiv ->]]. cbn in Hc. destruct Hc as [_ Hc].
+      destruct (arena_ivs_in _ _ _ _ Hiv) as [s [Hs Hivs]].
+      exists s, iv. split; [exact Hs|]. split; [exact Hivs | exact Hc].
+  - unfold aliases_input in Hall. apply andb_true_iff in Hall as [Hrg Hex].
+    apply Z.eqb_eq in Hrg. split; [exact Hrg|]. right.
+    apply existsb_exists in Hex as [[[[rg' lo'] hi'] t'] [Hi He]].
+    apply andb_true_iff in He as [He Hhi]. apply andb_true_iff in He as [Hr Hlo].
+    apply Z.eqb_eq in Hr, Hlo, Hhi. subst rg' lo' hi'. exists t'. exact Hi.
 Qed.
 
 (* every arena byte the stream writes carries, after the operator, the operator's scratch identity or the
@@ -119,6 +126,15 @@ Definition ex_hw : hwcfg := {| hw_ncores := 1; hw_lut_addr := 0; hw_shram_size :
 Example inference_accepts :
   check_inference ex_hw [(ARENA, 0, 16, Tag 1 0)]
     [TCpu [(ARENA, 0, 16, Tag 1 0)] [(ARENA, 16, 32, Tag 2 16)]; TCpu [(ARENA, 16, 32, Tag 2 16)] []] = true.
+Proof. vm_compute. reflexivity. Qed.
+(* an Ethos-U operator with an empty stream whose output occupies exactly its input (a reshape that is not copied) *)
+Example inference_accepts_alias :
+  check_inference ex_hw [(ARENA, 0, 16, Tag 1 0)]
+    [TNpu 0 (-1) [(ARENA, 0, 16, Tag 1 0)] [(ARENA, 0, 16, Tag 2 0)] []; TCpu [(ARENA, 0, 16, Tag 2 0)] []] = true.
+Proof. vm_compute. reflexivity. Qed.
+Example inference_rejects_unwritten_output :
+  check_inference ex_hw [(ARENA, 0, 16, Tag 1 0)]
+    [TNpu 0 (-1) [(ARENA, 0, 16, Tag 1 0)] [(ARENA, 16, 32, Tag 2 16)] []; TCpu [(ARENA, 16, 32, Tag 2 16)] []] = false.
 Proof. vm_compute. reflexivity. Qed.
 Example inference_rejects_clobbered_input :
   check_inference ex_hw [(ARENA, 0, 16, Tag 1 0)]
